@@ -1,8 +1,280 @@
-import BioCantor.Model.Tbl
-import BioCantor.Spec.Tbl
+/-
+  C17 — NCBI feature-table (.tbl) export lists the model's genes 5'→3', partial marks correct.
+
+  Property theorems only (helper lemmas: Proofs/TblCodec, TblFile, TblRows, TblQuals, TblCDS, TblMain).
+
+    Spec.Tbl.read / readFeatures   an INDEPENDENT reader of the 5-column text (header line, `start<TAB>end<TAB>key`
+                                   rows, continuation rows, `<TAB><TAB><TAB>key<TAB>value` qualifier lines)
+    Spec.Tbl.okFeat pre w f        the clauses of the property on one feature `f` as read back: key, rows = the maximal
+                                   merged source blocks as 1-based inclusive intervals in 5'→3' order (start ≥ end on
+                                   the minus strand), `<` / `>` exactly as expected, `pseudo`, `codon_start`,
+                                   `locus_tag = pre_<n>`
+    Spec.Tbl.CdsIn.*               partial marks / in-frame stop read off the chromosome letters (property wording)
+    Model.Tbl.*                    mirror of io/ncbi/tbl_writer.py (on top of Model/CDS.lean, Model/Location.lean)
+
+  Every theorem quantifies over ALL block lists (any number of blocks, unbounded coordinates / decimal rendering),
+  both strands, all feature keys / qualifier dictionaries without tab / line break.
+
+  What is proved, and what is left to the correspondence run (ops `tblgene`, `cdsfeat`, `coll`):
+    proved   text ⇄ reader (rows, marks, qualifiers, header, whole file); rows denote the blocks; block merging =
+             maximal runs of the covered positions; a printed feature meets `okFeat`; CDS flags (codon_start,
+             5'/3' completeness) and in-frame stop = the spec's reading of the letters, for a CDS object in one
+             uninterrupted reading frame; regenerated frames of a merged CDS are such a frame (C05-T4, outside
+             F-C05h); the reading-frame clauses do not change under merging; `pseudo` = any transcript; gene
+             strand = a majority strand; locus tags for every count / step.
+    partial  `cds_feature_of_merged_transcript_partial`: the step "CDSInterval.from_location(merged blocks,
+             regenerated frames) is again a well-formed CDS object whose first frame is the start frame" is a
+             hypothesis (`WFCDS`, `frameIter`), not derived from `Model.Tbl.mergeCDS`; `okFile` for a whole
+             collection is not composed from the per-feature theorems (the per-gene qualifier dictionaries are data).
+-/
+import BioCantor.Proofs.TblMain
 namespace BioCantor.Props.C17
-open BioCantor
+open BioCantor BioCantor.Model BioCantor.Model.Tbl BioCantor.Spec BioCantor.Spec.Tbl BioCantor.Proofs
+open BioCantor.Proofs.Tbl
+open BioCantor.Model.Bed (natStr)
 
-theorem placeholder : Model.Tbl.locPairs [] .plus = [] := rfl
+/-! ### T1 — the text of a feature's location reads back as its rows, and the rows denote the blocks -/
 
+/-- `_location_to_str` against the independent reader: for every non-empty block list, strand, pair of partial
+    marks and feature key (no tab / line break), the text holds exactly one feature with the printed rows. -/
+theorem location_text_reads_back (key : List Char) (blocks : List Blk) (st : Strand) (si ei : Bool)
+    (hb : blocks ≠ []) (hk : key ≠ [] ∧ '\t' ∉ key ∧ '\n' ∉ key) :
+    ∃ t, locationToStr key blocks st si ei = some t ∧
+      readFeatures t = some [⟨key, rowsOf (locPairs blocks st) si ei, []⟩] :=
+  locationToStr_read key blocks st si ei hb hk
+
+/-- the printed rows decode to exactly the blocks as 1-based inclusive intervals in 5'→3' order — ascending with
+    `start ≤ end` on the plus strand, descending with `start ≥ end` on the minus strand (`rowsBlocks` refuses
+    anything else) — for every list of non-empty blocks. -/
+theorem rows_denote_the_blocks (blocks : List Blk) (st : Strand) (si ei : Bool) (hpos : ∀ b ∈ blocks, b.1 < b.2) :
+    rowsBlocks st (rowsOf (locPairs blocks st) si ei) = some blocks :=
+  rows_denote_blocks blocks st si ei hpos
+
+/-- `<` stands before the first start exactly when the 5' end is flagged incomplete, `>` before the last end exactly
+    when the 3' end is; no other mark is written. -/
+theorem partial_marks_are_the_flags (blocks : List Blk) (st : Strand) (si ei : Bool) (hb : blocks ≠ []) :
+    innerMarksClean (rowsOf (locPairs blocks st) si ei) = true ∧
+    firstMark (rowsOf (locPairs blocks st) si ei) = some si ∧
+    lastMark (rowsOf (locPairs blocks st) si ei) = some ei :=
+  rows_marks _ si ei (locPairs_ne_nil blocks st hb)
+
+/-! ### T2 — block merging in `TblGene` -/
+
+/-- `tx._location.optimize_and_combine_blocks()` on an exon layout (ascending, non-empty, non-overlapping blocks,
+    0-bp gaps allowed; any strand) yields the maximal runs of the covered positions. -/
+theorem merged_exons_are_maximal_runs (t : Tx) (h : goodBlocks t.exons = true) (hne : t.exons ≠ []) :
+    mergeExons t = .ok (mergedBlocks t.exons) :=
+  mergeExons_runs t h hne
+
+/-- the merged blocks cover exactly the source positions, read in the same 5'→3' order on either strand; no merged
+    block is empty and none ends where the next begins (they are maximal). -/
+theorem merged_blocks_same_positions_maximal (src : List Blk) (st : Strand) (h : goodBlocks src = true) :
+    bases ⟨mergedBlocks src, st⟩ = bases ⟨src, st⟩ ∧ normalBlocks (mergedBlocks src) = true :=
+  ⟨merged_same_bases src st h, merged_normal src h⟩
+
+/-! ### T3 — a printed feature, read back, meets every clause; the whole file reads back -/
+
+/-- for every feature the writer can print (blocks = the merged source blocks, any strand, marks, `pseudo` flag,
+    further qualifiers): the feature as the independent reader sees it satisfies `okFeat`. -/
+theorem printed_feature_meets_clauses (pre : List Char) (hpre : plainChars pre) (f : Feature) (hok : FeatOK f)
+    (src : List Blk) (hgood : goodBlocks src = true) (hblocks : f.blocks = mergedBlocks src)
+    (keyOk : List Char → Bool) (hkey : keyOk f.key = true) (cs : Option Nat)
+    (hcs : ∀ n, cs = some n → f.key = "CDS".toList ∧
+      f.quals.filter (fun kv => kv.1 = "codon_start".toList) = [("codon_start".toList, [some (natStr n)])])
+    (tagNo : Nat)
+    (hlt : f.quals.filter (fun kv => kv.1 = "locus_tag".toList)
+      = [("locus_tag".toList, [some (pre ++ '_' :: natStr tagNo)])]) :
+    okFeat pre ⟨keyOk, [f.strand], src, f.si, f.ei, f.pseudo, cs, tagNo⟩ (featOf f) = true :=
+  feature_clauses pre hpre f hok src hgood hblocks keyOk hkey cs hcs tagNo hlt
+
+/-- `collection_to_tbl`'s text for one collection (header `>Features <name>`, then every feature) reads back as one
+    section named after the sequence holding exactly the printed features, in order. -/
+theorem file_reads_back (seqName : List Char) (fs : List Feature)
+    (hn : seqName ≠ [] ∧ ' ' ∉ seqName ∧ '\n' ∉ seqName) (hfs : ∀ f ∈ fs, FeatOK f) :
+    ∃ t, fileText seqName fs = some t ∧ Spec.Tbl.read t = some [⟨seqName, fs.map featOf⟩] :=
+  fileText_read seqName fs hn hfs
+
+/-- the `pseudo` qualifier line is present exactly when the feature is flagged -/
+theorem pseudo_line_iff_flag (f : Feature) :
+    ((featOf f).quals.any (fun q => q.1 = "pseudo".toList)) = f.pseudo :=
+  pseudo_read_back f
+
+/-! ### T4 — the CDS feature -/
+
+/-- `CDSTblFeature` on a CDS object in one uninterrupted reading frame with at least one codon: `codon_start` is the
+    start frame plus one; the 5' end is flagged incomplete exactly when the first codon is not a start codon of the
+    chosen table (`Gen.startCodons`, tied to the NCBI tables by C05/C15); the 3' end exactly when the CDS does not
+    end in frame on a stop codon. -/
+theorem cds_feature_flags (c : CDS) (h : WFCDS c)
+    (hshallow : shallowTrim (exonWalk c.loc (specFrames c)) = true)
+    (hkept : c.loc.blocks.length = 1 ∨ cdsKept c.loc (specFrames c) ≠ [])
+    (chrom : List Char) (hs : SeqOK c chrom) (halpha : ∀ ch ∈ chrom, ch.toUpper ∈ Gen.codonAlphabet)
+    (table : Nat) (ht : table = 0 ∨ table = 1 ∨ table = 11)
+    (fr : CDSFrame) (rest : List CDSFrame) (hfr : c.frameIter = fr :: rest)
+    (f : Nat) (hf : fr.value = (f : Int)) (hplain : PlainFrame c f)
+    (hcod : (cdsInOf c f chrom).codons ≠ some []) :
+    ∃ si ei, cdsFlags c (table : Int) = .ok (f + 1, si, ei) ∧
+      (cdsInOf c f chrom).startPartial table = some si ∧ (cdsInOf c f chrom).endPartial = some ei :=
+  cdsFlags_spec c h hshallow hkept chrom hs halpha table ht fr rest hfr f hf hplain hcod
+
+/-- the frames `TblGene` regenerates for the merged CDS (`construct_frames_from_location(merged, first frame)`)
+    describe one uninterrupted reading frame from the start frame on (C05-T4) — unless the 5'-most merged block is
+    shorter than the start frame (F-C05h, witness below). -/
+theorem regenerated_frames_are_one_frame (src : List Blk) (st : Strand) (hst : st = .plus ∨ st = .minus)
+    (hgood : goodBlocks src = true) (hne : mergedBlocks src ≠ []) (l : Location)
+    (hl : toLoc l = some ⟨mergedBlocks src, st⟩) (f : CDSFrame) (hf : f ≠ .NONE)
+    (hfirst : (mergedBlocks src).length = 1 ∨ f.value ≤ (firstLen ⟨mergedBlocks src, st⟩ : Int)) :
+    okFrames ⟨mergedBlocks src, st⟩ f.value.toNat ((ans (constructFramesFromLocation l f)).map frameVals) = true :=
+  constructFrames_ok l ⟨mergedBlocks src, st⟩ hl hne hst f hf hfirst
+
+/-- the reading-frame clauses read the same letters before and after merging -/
+theorem reading_frame_clauses_survive_merging (src : List Blk) (st : Strand) (f : Nat) (g : List Char)
+    (h : goodBlocks src = true) (table : Nat) :
+    (⟨mergedBlocks src, st, f, g⟩ : CdsIn).startPartial table = (⟨src, st, f, g⟩ : CdsIn).startPartial table ∧
+    (⟨mergedBlocks src, st, f, g⟩ : CdsIn).endPartial = (⟨src, st, f, g⟩ : CdsIn).endPartial ∧
+    (⟨mergedBlocks src, st, f, g⟩ : CdsIn).inFrameStop = (⟨src, st, f, g⟩ : CdsIn).inFrameStop :=
+  cdsIn_merged src st f g h table
+
+/-- FULL STATEMENT (not proved): for every coding transcript with exon layout / CDS `src` (good blocks) and start
+    frame `f` not exceeding the 5'-most merged block, `Model.Tbl.tblGene` yields a CDS feature with blocks
+    `mergedBlocks src`, `codon_start = f + 1` and the two flags of `CdsIn ⟨src, strand, f, genome⟩`.
+    PROVED PART: the same for any CDS object `c` ON the merged blocks that is well formed, carries the start frame
+    first and is in one reading frame — i.e. everything except "`mkCDS` of the merged blocks with the regenerated
+    frames is such an object", which the `tblgene` / `coll` correspondence exercises instead. -/
+theorem cds_feature_of_merged_transcript_partial (src : List Blk) (st : Strand) (hgood : goodBlocks src = true)
+    (c : CDS) (hloc : c.loc = ⟨mergedBlocks src, st⟩) (h : WFCDS c)
+    (hshallow : shallowTrim (exonWalk c.loc (specFrames c)) = true)
+    (hkept : c.loc.blocks.length = 1 ∨ cdsKept c.loc (specFrames c) ≠ [])
+    (chrom : List Char) (hs : SeqOK c chrom) (halpha : ∀ ch ∈ chrom, ch.toUpper ∈ Gen.codonAlphabet)
+    (table : Nat) (ht : table = 0 ∨ table = 1 ∨ table = 11)
+    (fr : CDSFrame) (rest : List CDSFrame) (hfr : c.frameIter = fr :: rest)
+    (f : Nat) (hf : fr.value = (f : Int)) (hplain : PlainFrame c f)
+    (hcod : (⟨src, st, f, chrom⟩ : CdsIn).codons ≠ some []) :
+    ∃ si ei, cdsFlags c (table : Int) = .ok (f + 1, si, ei) ∧
+      (⟨src, st, f, chrom⟩ : CdsIn).startPartial table = some si ∧
+      (⟨src, st, f, chrom⟩ : CdsIn).endPartial = some ei := by
+  have hci : cdsInOf c f chrom = ⟨mergedBlocks src, st, f, chrom⟩ := by unfold cdsInOf; rw [hloc]
+  obtain ⟨e1, e2, _⟩ := cdsIn_merged src st f chrom hgood table
+  have hcod' : (cdsInOf c f chrom).codons ≠ some [] := by
+    rw [hci]
+    have : (⟨mergedBlocks src, st, f, chrom⟩ : CdsIn).codons = (⟨src, st, f, chrom⟩ : CdsIn).codons := by
+      unfold CdsIn.codons; rw [cdsIn_merged_letters src st f chrom hgood]
+    rw [this]; exact hcod
+  obtain ⟨si, ei, h1, h2, h3⟩ := cdsFlags_spec c h hshallow hkept chrom hs halpha table ht fr rest hfr f hf hplain hcod'
+  rw [hci] at h2 h3
+  exact ⟨si, ei, h1, by rw [← e1]; exact h2, by rw [← e2]; exact h3⟩
+
+/-! ### T5 — pseudo -/
+
+/-- `has_in_frame_stop` of a CDS object in one reading frame whose codons are plain ACGT is "a codon before the last
+    one is a stop codon". -/
+theorem in_frame_stop_is_inner_stop_codon (c : CDS) (h : WFCDS c)
+    (hshallow : shallowTrim (exonWalk c.loc (specFrames c)) = true)
+    (hkept : c.loc.blocks.length = 1 ∨ cdsKept c.loc (specFrames c) ≠ [])
+    (chrom : List Char) (hs : SeqOK c chrom) (halpha : ∀ ch ∈ chrom, ch.toUpper ∈ Gen.codonAlphabet)
+    (f : Nat) (hplain : PlainFrame c f)
+    (hacgt : ∀ cods, (cdsInOf c f chrom).codons = some cods → ∀ cod ∈ cods, (standardCode cod).isSome = true) :
+    ∃ b, hasInFrameStop c = .ok b ∧ (cdsInOf c f chrom).inFrameStop = some b :=
+  inFrameStop_spec c h hshallow hkept chrom hs halpha f hplain hacgt
+
+/-- `GeneTblFeature.is_pseudo` of a coding gene is "SOME transcript has an in-frame stop" (not the first one, not
+    all of them): for any number of transcripts. -/
+theorem pseudo_iff_some_transcript_has_in_frame_stop (cbs : List (CDS × Bool))
+    (h : ∀ p ∈ cbs, hasInFrameStop p.1 = .ok p.2) :
+    anyInFrameStop (cbs.map (fun p => some p.1)) = .ok ((cbs.map (·.2)).any id) :=
+  anyInFrameStop_any cbs h
+
+/-! ### T6 — gene feature strand, locus tags, seeding -/
+
+/-- the strand `GeneTblFeature` picks (`max(strands, key=strands.count)`) is carried by a largest number of the
+    gene's transcripts. -/
+theorem gene_strand_is_a_majority_strand (g : GeneIn) (s : Strand)
+    (h : geneStrand (g.txs.map (·.strand)) = some s) : s ∈ g.majorityStrands :=
+  geneStrand_majority g s h
+
+/-- for every prefix, step and number of genes: the tags decode as `prefix_<n>` with `n` increasing by exactly the
+    step from the step on, and they are pairwise distinct when the step is positive. -/
+theorem locus_tags_increase_by_step_and_are_distinct (pre : List Char) (step n : Nat) :
+    okTags pre step (locusTags pre (step : Int) n) = true :=
+  locusTags_ok pre step n
+
+/-- the tag handed to gene number `i + 1` is `prefix_<(i+1)·step>` -/
+theorem locus_tag_of_gene (pre : List Char) (step n i : Nat) (h : i < n) :
+    (locusTags pre (step : Int) n)[i]? = some (pre ++ '_' :: natStr ((i + 1) * step)) :=
+  locusTags_get pre step n i h
+
+/-- with the repair of F-C17a (`if random_seed is not None:`) every given seed is applied -/
+theorem repaired_seeding_applies_every_seed (seed : Option Int) : seedApplied true seed = seed.isSome := by
+  cases seed <;> rfl
+
+/-- F-C17a (the code as it is, `if random_seed:`): every seed except 0 is applied -/
+theorem seeding_as_is_partial (s : Int) (h : s ≠ 0) : seedApplied false (some s) = true := by
+  simp [seedApplied, h]
+
+/-- F-C17a witness: seed 0 is silently not applied -/
+theorem seed_zero_is_ignored_witness : seedApplied false (some 0) = false := by decide
+
+/-! ### non-vacuity: concrete inputs satisfying the hypotheses -/
+
+/-- a minus-strand mRNA on three merged blocks, both ends partial, with qualifiers -/
+def exampleFeature : Feature :=
+  { key := "mRNA".toList, blocks := [(2, 9), (12, 14), (20, 31)], strand := .minus, si := true, ei := true,
+    pseudo := true,
+    quals := [("gene".toList, [some "abc".toList]), ("locus_tag".toList, [some "LT_10".toList]),
+              ("note".toList, [some "z(b)".toList, none, some "a;x".toList]), ("other".toList, [some "dropped".toList])] }
+
+example : goodBlocks [(2, 5), (5, 9), (12, 14), (20, 26), (26, 31)] = true := by decide
+example : mergedBlocks [(2, 5), (5, 9), (12, 14), (20, 26), (26, 31)] = exampleFeature.blocks := by decide
+example : plainChars "LT".toList := by intro c hc; simp at hc; rcases hc with rfl | rfl <;> decide
+example : exampleFeature.quals.filter (fun kv => kv.1 = "locus_tag".toList)
+    = [("locus_tag".toList, [some ("LT".toList ++ '_' :: natStr 10)])] := by decide
+example : exampleFeature.str = some
+    ("<31\t21\tmRNA\t\t\n14\t13\t\t\t\n9\t>3\t\t\t\n\t\t\tgene\tabc\n\t\t\tlocus_tag\tLT_10\n" ++
+     "\t\t\tnote\tax\n\t\t\tnote\tzb\n\t\t\tpseudo\t").toList := by decide
+example : FeatOK exampleFeature :=
+  ⟨by decide, by decide, by decide⟩
+example : readFeatures ("<31\t20\tmRNA\t\t\n14\t13\t\t\t\n9\t>3\t\t\t\n\t\t\tpseudo\t").toList
+    = some [⟨"mRNA".toList, [⟨true, 31, false, 20⟩, ⟨false, 14, false, 13⟩, ⟨false, 9, true, 3⟩],
+             [("pseudo".toList, [])]⟩] := by decide
+example : rowsBlocks .minus [⟨true, 31, false, 20⟩, ⟨false, 14, false, 13⟩, ⟨false, 9, true, 3⟩]
+    = some [(2, 9), (12, 14), (19, 31)] := by decide
+example : okTags "LT".toList 5 ["LT_5".toList, "LT_10".toList, "LT_15".toList] = true := by decide
+example : okTags "LT".toList 5 ["LT_5".toList, "LT_10".toList, "LT_10".toList] = false := by decide
+
+/-- the reading-frame clauses on a small chromosome: CDS `ATG AAA TAG GGG TAA` (plus strand, two adjacent blocks and a
+    gap), start frame 0: complete at both ends under every table, with an in-frame stop -/
+def exampleCds : CdsIn := ⟨[(2, 6), (6, 11), (13, 19)], .plus, 0, "CCATGAAATAGCCGGGTAACC".toList⟩
+example : exampleCds.startPartial 0 = some false ∧ exampleCds.endPartial = some false ∧
+    exampleCds.inFrameStop = some true := by decide
+/-- the same letters read from frame 1 (`TGA AAT AGG GGT AA`): 5'-partial, 3'-partial, the first codon is a stop
+    but no codon BEFORE the last is one after it … `TGA` is: in-frame stop -/
+example : ({ exampleCds with frame := 1 } : CdsIn).startPartial 11 = some true ∧
+    ({ exampleCds with frame := 1 } : CdsIn).endPartial = some true := by decide
+/-- `TTG` starts a CDS under tables 1 and 11 only -/
+example : (⟨[(0, 6)], .plus, 0, "TTGTAA".toList⟩ : CdsIn).startPartial 0 = some true ∧
+    (⟨[(0, 6)], .plus, 0, "TTGTAA".toList⟩ : CdsIn).startPartial 1 = some false := by decide
+/-- minus strand: the reverse complement of `TTACAT` is `ATGTAA` -/
+example : (⟨[(0, 6)], .minus, 0, "TTACAT".toList⟩ : CdsIn).startPartial 0 = some false ∧
+    (⟨[(0, 6)], .minus, 0, "TTACAT".toList⟩ : CdsIn).endPartial = some false := by decide
+
+/-- the model object of `exampleCds` (frames 0,1,0 = one reading frame from frame 0): the hypotheses of
+    `cds_feature_flags` / `in_frame_stop_is_inner_stop_codon` hold for it -/
+def exampleCDSObj : CDS :=
+  { loc := ⟨[(2, 6), (6, 11), (13, 19)], .plus⟩, start := 2, «end» := 19, frames := [.ZERO, .ONE, .ZERO],
+    seq := some "CCATGAAATAGCCGGGTAACC".toList }
+
+example : WFCDS exampleCDSObj := ⟨Or.inl rfl, by decide, by decide, by decide, by decide, by decide⟩
+example : shallowTrim (exonWalk exampleCDSObj.loc (specFrames exampleCDSObj)) = true := by decide
+example : cdsKept exampleCDSObj.loc (specFrames exampleCDSObj) ≠ [] := by decide
+example : SeqOK exampleCDSObj "CCATGAAATAGCCGGGTAACC".toList := ⟨rfl, by decide, by decide⟩
+example : ∀ ch ∈ "CCATGAAATAGCCGGGTAACC".toList, ch.toUpper ∈ Gen.codonAlphabet := by decide
+example : exampleCDSObj.frameIter = [.ZERO, .ONE, .ZERO] ∧ CDSFrame.ZERO.value = ((0 : Nat) : Int) := by decide
+example : PlainFrame exampleCDSObj 0 := by unfold PlainFrame; decide
+example : (cdsInOf exampleCDSObj 0 "CCATGAAATAGCCGGGTAACC".toList).codons ≠ some [] := by decide
+example : ∀ cods, (cdsInOf exampleCDSObj 0 "CCATGAAATAGCCGGGTAACC".toList).codons = some cods →
+    ∀ cod ∈ cods, (standardCode cod).isSome = true := by decide
+example : toLoc (.compound ⟨mergedBlocks [(2, 6), (6, 11), (13, 19)], .plus⟩)
+    = some ⟨mergedBlocks [(2, 6), (6, 11), (13, 19)], .plus⟩ := by decide
+example : (CDSFrame.TWO).value ≤ (firstLen ⟨mergedBlocks [(2, 6), (6, 11), (13, 19)], .plus⟩ : Int) := by decide
+example : geneStrand ([Strand.minus, .plus, .minus].map id) = some .minus := by decide
 end BioCantor.Props.C17
